@@ -58,6 +58,9 @@ def snap_value(v):
         st = None if v.start_time is None else (float(v.start_time.jd1).hex(), float(v.start_time.jd2).hex(), v.start_time.scale,
                                                  v.start_time.format)
         return ("signal", type(v).__name__, snap_array(v.data), at, st, repr(copy.deepcopy(v.meta)))
+    if isinstance(v, pb.Phase):
+        # both doubles (the plain .value is their single-double sum)
+        return ("phase", snap_array(np.asarray(v["int"].value)), snap_array(np.asarray(v["frac"].value)), bool(np.all(v.imaginary)))
     if isinstance(v, Time):
         return ("time", np.asarray(v.jd1).tobytes(), np.asarray(v.jd2).tobytes(), v.scale, v.format)
     if isinstance(v, u.Quantity):
@@ -154,6 +157,12 @@ ARG_OPS = [
      lambda z, q, q2: (pb.freq_shift(z, q), pb.freq_shift(z, q2), pb.freq_shift(z, catalogue.per_chan(z, [1.0, -2.0]) * z.sample_rate))),
     ("time_shift(everything shifted out)", floaty, lambda z: (float(len(z)), -3.0 * len(z)),
      lambda z, a, b: (pb.time_shift(z, a), pb.time_shift(z, b), pb.time_shift(z, a, crop=True))),
+    ("ufunc with where= and no out=", floaty, lambda z: (np.arange(int(np.prod(z.shape))).reshape(z.shape) % 2 == 0,),
+     lambda z, m: (np.multiply(z, 10.0, where=m), np.add(z, z, where=m), np.negative(z, where=m))),
+    ("Phase / FractionalPhase built from the caller's arrays", lambda z: True,
+     lambda z: (pb.Phase(np.array([20.0, 3.0, -7.0]), np.array([-0.3, 0.45, 0.2])), np.array([1.0, 2.5]), np.array([0.75, -0.25]) * u.cycle),
+     lambda z, ph, a, q: (pb.pulsar.FractionalPhase(ph, wrap_angle=1 * u.cycle), pb.pulsar.FractionalPhase(ph), pb.pulsar.FractionalPhase(q, wrap_angle=0.25 * u.cycle),
+                          pb.Phase(a, a / 8), pb.Phase(q), ph * a[:1], ph + q[:1], ph.sort(), ph % (0.3 * u.cycle), ph.to_string(precision=3))),
     ("contains(Time array)", lambda z: True, lambda z: (Time(["2021-01-01T00:00:00", "2021-01-01T00:00:00.000005"], precision=9),),
      lambda z, t: z.contains(t)),
     ("ufunc with ndarray operand", lambda z: True, lambda z: (np.ones(z.shape[-1]),), lambda z, a: z * a),
